@@ -438,6 +438,192 @@ def extra_runs(chk, shim, tmp, root, paths, rules_src, nfa, tree_replay, octr, q
         out_discipline(chk, od, nfa, " ".join(a.replace(tmp, "<tmp>") for a in args[:-2]), int(args[1]), seed, mode, tree_replay, args, sched, octr)
 
 
+# ------------------------------------------------------------------ per-file module state must not outlive its scan
+MOD_RULES = {   # module -> rules that use per-file state of that module (%(...)s filled per tree)
+    "hash": 'rule h_known_a { condition: hash.md5(0, filesize) == "%(md5a)s" }\n'
+            'rule h_known_b : tagH { meta: which = "group b" condition: filesize > 0 and hash.sha256(0, filesize) == "%(sha256b)s" }\n'
+            'rule h_known_elf_sized { condition: hash.md5(0, filesize) == "%(md5e)s" }\n',
+    "elf": 'rule is_elf : exe { meta: kind = "elf" condition: elf.type == elf.ET_EXEC or elf.type == elf.ET_DYN }\n'
+           'rule elf_many_sections { condition: elf.number_of_sections > 20 }\n',
+    "pe": 'rule is_pe : exe { condition: pe.number_of_sections > 0 }\nrule pe_7_sections { condition: pe.number_of_sections == 7 }\n',
+    "dotnet": 'rule is_dotnet : exe { condition: dotnet.is_dotnet }\nrule dotnet_5_streams { condition: dotnet.number_of_streams == 5 }\n',
+    "macho": 'rule is_macho { condition: defined macho.magic or defined macho.fat_magic }\n',
+    "dex": 'rule is_dex { condition: defined dex.header.file_size }\n',
+    "math": 'rule entropy_hi { condition: filesize > 0 and math.entropy(0, filesize) >= 6.0 }\n'
+            'rule entropy_lo { condition: filesize > 0 and math.entropy(0, filesize) < 4.5 }\n'
+            'rule mean_lo { condition: filesize > 0 and math.mean(0, filesize) < 60.0 }\n',
+    "string": 'rule str_len { condition: string.length("abc") == 3 and filesize == 0 }\n',
+    "time": 'rule time_ok { condition: time.now() > 1600000000 and filesize == 0 }\n',
+    "tests": 'rule tests_mod { condition: tests.constants.one == 1 and filesize == 0 }\n',
+    "console": "",
+}
+MOD_LOGS = {    # printed to stdout by the console module: the module values themselves are compared
+    "hash": 'rule log_md5 { condition: filesize > 0 and console.log("md5=", hash.md5(0, filesize)) }\n',
+    "elf": 'rule log_elf { condition: elf.number_of_sections > 0 and console.log("elf_sections=", elf.number_of_sections) }\n',
+    "pe": 'rule log_pe { condition: pe.is_pe and console.log("pe_sections=", pe.number_of_sections) }\n',
+    "dotnet": 'rule log_dotnet { condition: dotnet.number_of_streams > 0 and console.log("dotnet_streams=", dotnet.number_of_streams) }\n',
+}
+# variants: (name, externals [(name, value given where the rules need it, other value)], rules using them, modules NOT imported)
+MOD_VARIANTS = [
+    ("plain externals of every type", [], "", []),
+    ("external named time (not imported)", [("time", "1700000000", "0")],
+     "rule ext_time { condition: time > 1600000000 and filesize == 0 }\n", ["time"]),
+    ("external named string (not imported)", [("string", "needle", "zz")],
+     'rule ext_string { condition: string contains "need" and filesize == 0 }\n', ["string"]),
+    ("external named math (not imported)", [("math", "2.5", "0.5")],
+     "rule ext_math { condition: math > 2.0 and filesize == 0 }\n", ["math"]),
+    ("external named pe (not imported)", [("pe", "true", "false")],
+     "rule ext_pe { condition: pe and filesize == 0 }\n", ["pe"]),
+    ("external named tests (not imported)", [("tests", "1", "0")],
+     "rule ext_tests { condition: tests == 1 and filesize == 0 }\n", ["tests"]),
+]
+MOD_COMMON_EXT = [("ext_i", "7", "0"), ("ext_s", "haystack", "zz"), ("ext_b", "true", "false"), ("ext_f", "2.5", "0.25")]
+MOD_COMMON_RULE = 'rule ext_all_types { condition: ext_i == 7 and ext_s contains "stack" and ext_b and ext_f > 1.0 and filesize == 0 }\n'
+
+
+def module_tree(root):
+    """Deterministic tree: three groups of EQUAL-SIZE text files with different content, ELF / PE / .NET / Mach-O samples
+    (several copies each), random files of exactly the size of the ELF sample, empty and tiny files; the returned list
+    interleaves the kinds (it is also the order of the scan list)."""
+    import hashlib
+    data = os.path.join(build.REPO, "tests", "data")
+    samples = {}
+    for kind, names in (("elf", ["elf_with_imports"]), ("pe", ["tiny", "mtxex.dll"]),
+                        ("dotnet", ["0ca09bde7602769120fadc4f7a4147347a7a97271370583586c9e587fd396171",
+                                    "3b8b90159fa9b6048cc5410c5d53f116943564e4d05b04a843f9b3d0540d0c1c"]),
+                        ("macho", ["tiny-macho", "tiny-universal"])):
+        for n in names:
+            q = os.path.join(data, n)
+            if os.path.exists(q):
+                samples.setdefault(kind, []).append(open(q, "rb").read())
+    for d in ("", "sub", "sub/deep", "other"):
+        os.makedirs(os.path.join(root, d), exist_ok=True)
+    by_kind = {}
+
+    def put(kind, rel, content):
+        q = os.path.join(root, rel)
+        open(q, "wb").write(content)
+        by_kind.setdefault(kind, []).append(q)
+        return q
+    known = {}
+    for g, width in (("a", 40), ("b", 97), ("c", 300)):
+        for i in range(10):
+            body = ("group %s file number %03d " % (g, i)).encode()
+            body = (body * (width // len(body) + 1))[:width - 1] + b"\n"
+            q = put("text_" + g, os.path.join(("", "sub", "other")[i % 3], "text_%s_%03d.txt" % (g, i)), body)
+            if i == 4:
+                known[g] = body
+    elf_size = len(samples["elf"][0]) if "elf" in samples else 17080
+    for i in range(3):
+        h = hashlib.sha256(b"filler%d" % i).digest()
+        put("elfsized", os.path.join(("sub", "", "sub/deep")[i], "blob_%d.bin" % i), (h * (elf_size // 32 + 1))[:elf_size])
+    for kind, blobs in samples.items():
+        for j, b in enumerate(blobs):
+            for c in range(4 if kind == "elf" else 2):
+                put(kind, os.path.join(("", "sub", "sub/deep", "other")[(j + c) % 4], "%s_%d_copy%d.bin" % (kind, j, c)), b)
+    for i in range(6):
+        put("empty", os.path.join(("", "sub")[i % 2], "empty_%d.dat" % i), b"")
+    for i in range(24):
+        put("misc", os.path.join(("", "other")[i % 2], "note_%02d.txt" % i), ("note %d " % i).encode() * (i + 1))
+    order = []
+    kinds = sorted(by_kind)
+    k = 0
+    while any(by_kind[x] for x in kinds):
+        x = kinds[k % len(kinds)]
+        if by_kind[x]:
+            order.append(by_kind[x].pop(0))
+        k += 1
+    blob0 = os.path.join(root, "sub", "blob_0.bin")
+    fill = dict(md5a=hashlib.md5(known["a"]).hexdigest(), sha256b=hashlib.sha256(known["b"]).hexdigest(),
+                md5e=hashlib.md5(open(blob0, "rb").read()).hexdigest())
+    return order, fill
+
+
+def module_state_runs(chk, yara, yarac, tmp, quick, HANG_S):
+    """Black box: rules importing every compiled-in module and using per-file module state; externals of every type,
+    also named like modules; directory and scan-list scans at several thread counts, source rules and yarac output with
+    the externals given at either stage, against one yara process per file."""
+    from concurrent.futures import ThreadPoolExecutor
+    rc, out, err = sh([yara, "-M"], timeout=HANG_S)
+    mods = [m for m in out.split() if m in MOD_RULES]
+    root = os.path.join(tmp, "modtree")
+    order, fill = module_tree(root)
+    lst = os.path.join(tmp, "modlist.txt")
+    open(lst, "w").write("\n".join(order) + "\n")
+    runs_done, lines_cmp = 0, 0
+    tcs = (1, 2, 4, 8, 32)
+    for vi, (vname, exts, vrules, not_imported) in enumerate(MOD_VARIANTS):
+        imported = [m for m in mods if m not in not_imported]
+        text = "".join('import "%s"\n' % m for m in imported)
+        text += "".join(MOD_RULES[m] % fill for m in imported)
+        if "console" in imported:
+            text += "".join(MOD_LOGS[m] for m in imported if m in MOD_LOGS)
+        text += MOD_COMMON_RULE + vrules
+        rules = os.path.join(tmp, "mod_%d.yar" % vi)
+        open(rules, "w").write(text)
+        allext = MOD_COMMON_EXT + exts
+        good = [x for n, g, o in allext for x in ("-d", "%s=%s" % (n, g))]
+        other = [x for n, g, o in allext for x in ("-d", "%s=%s" % (n, o))]
+        yc_good, yc_other = os.path.join(tmp, "mod_%d_a.yarc" % vi), os.path.join(tmp, "mod_%d_b.yarc" % vi)
+        c1 = sh([yarac] + good + [rules, yc_good], timeout=HANG_S)
+        c2 = sh([yarac] + other + [rules, yc_other], timeout=HANG_S)
+        if c1[0] != 0 or c2[0] != 0:
+            chk.violation("module-state:yarac", "yarac fails on rules importing %s with externals %s: %r" % (imported, good, (c1[2] + c2[2])[:300]),
+                          {"kind": "module-state", "variant": vname, "rules": text, "externals": good}, found_input=False)
+            continue
+        opts = ["-w", "-g", "-m"]
+        with ThreadPoolExecutor(8) as ex:
+            refs = list(ex.map(lambda q: sh([yara] + opts + good + [rules, q], timeout=HANG_S), order))
+        ref = sorted(l for r in refs for l in r[1].split("\n") if l)
+        referr = [(os.path.relpath(q, root), r[0], r[2][:100]) for q, r in zip(order, refs) if r[0] != 0 or r[2].strip()]
+        if referr:
+            chk.violation("module-state:reference", "single-file runs report errors (%s): %r" % (vname, referr[:3]),
+                          {"kind": "module-state", "variant": vname, "rules": text}, found_input=False)
+            continue
+        forms = [("source rules", good + [rules]), ("yarac, externals at compile time", ["-C", yc_good]),
+                 ("yarac with other values, externals given to yara -C", ["-C"] + good + [yc_other])]
+        for n in tcs:
+            for target, targs in (("directory -r", ["-r", root]), ("scan list", ["--scan-list", lst])):
+                for fname, fargs in forms:
+                    if quick and vi > 0 and fname.startswith("yarac, externals at compile") and n in (2, 8):
+                        continue
+                    cmd = [yara, "-p", str(n)] + opts + fargs + targs
+                    # --scan-list takes the list as the target: rules first
+                    rc, out, err = sh(cmd, timeout=HANG_S)
+                    runs_done += 1
+                    got = sorted(l for l in out.split("\n") if l)
+                    lines_cmp += len(got)
+                    if rc == "timeout" or rc != 0 or got != ref:
+                        missing_l = [l for l in ref if l not in got]
+                        extra_l = [l for l in got if l not in ref]
+                        chk.violation("module-state:" + vname.split(" (")[0],
+                                      "%s, %s, -p %d, %s: %s.  %d expected line(s) missing, %d unexpected, e.g. missing %s unexpected %s "
+                                      "(reference = one yara process per file; in a directory / scan-list scan each thread reuses one "
+                                      "scanner, so module state of an earlier file must not be visible)"
+                                      % (vname, target, n, fname, "does not terminate" if rc == "timeout" else "exit status %r" % rc if rc != 0
+                                         else "output differs from the per-file runs", len(missing_l), len(extra_l),
+                                         [x.replace(tmp, "<tmp>") for x in missing_l[:2]], [x.replace(tmp, "<tmp>") for x in extra_l[:2]]),
+                                      {"kind": "module-state", "variant": vname, "rules": text, "externals": good,
+                                       "externals_at_yarac_for_last_form": other,
+                                       "cmd": ["yara"] + [c.replace(tmp, "<tmp>") for c in cmd[1:]],
+                                       "tree": "checks/c18.py module_tree(): 3 groups of 10 equal-size text files, 3 random files of the size of "
+                                               "tests/data/elf_with_imports, copies of the ELF/PE/.NET/Mach-O samples of tests/data, empty "
+                                               "files, notes; %d files; scan list interleaves the kinds" % len(order),
+                                       "missing": [x.replace(tmp, "<tmp>") for x in missing_l[:12]],
+                                       "unexpected": [x.replace(tmp, "<tmp>") for x in extra_l[:12]], "stderr": err[:300]})
+    # an external named like a module that IS imported: refused by both compilers
+    clash = os.path.join(tmp, "mod_clash.yar")
+    open(clash, "w").write('import "time"\nrule t { condition: time.now() > 0 }\n')
+    a = sh([yara, "-d", "time=1", clash, order[0]], timeout=HANG_S)
+    b = sh([yarac, "-d", "time=1", clash, os.path.join(tmp, "mod_clash.yarc")], timeout=HANG_S)
+    if (a[0] == 0) != (b[0] == 0) or (a[0] != 0) != ("error" in a[2]) or (b[0] != 0) != ("error" in b[2]):
+        chk.violation("module-state:clash", "external variable named like an imported module: yara exit %r stderr %r, yarac exit %r stderr %r"
+                      % (a[0], a[2][:120], b[0], b[2][:120]), {"kind": "module-state", "rules": open(clash).read()})
+    chk.note(module_state=dict(modules=mods, variants=[v[0] for v in MOD_VARIANTS], files=len(order), thread_counts=list(tcs),
+                               directory_and_scanlist_runs=runs_done, output_lines_compared=lines_cmp))
+    return runs_done
+
+
 # ------------------------------------------------------------------ the check
 def run(chk, replay_spec=None):
     quick = chk.tier == "quick"
@@ -873,6 +1059,10 @@ def _run_all(chk, quick, tmp, yara, yarac, shim, model, slots, info, replay_spec
                            "missing": [x.replace(tmp, "<tmp>") for x in missing_l[:10]], "unexpected": [x.replace(tmp, "<tmp>") for x in extra_l[:10]]})
         else:
             chk.add("limit_history_runs_equal_to_per_file_reference")
+
+    # ---------------------------------------------------------------- module state must not outlive the scan of its file
+    evals += module_state_runs(chk, yara, yarac, tmp, quick, HANG_S)
+    distinct.update(("module-state", v[0], n) for v in MOD_VARIANTS for n in (1, 2, 4, 8, 32))
 
     # ---------------------------------------------------------------- exit status <-> errors reported
     missing = os.path.join(tmp, "does_not_exist")
